@@ -531,6 +531,9 @@ class Command:
                     self.nextargpos = pos + 1
                 if add:
                     self.arguments[curarg["name"]] = avalue
+                    # a parameter given to a previous tag of this slot does
+                    # not belong to the new one
+                    self.extra_arguments.pop(curarg["name"], None)
                 break
 
             pos += 1
